@@ -31,6 +31,10 @@ pub struct Case {
     /// (after the handler ran, when it is the response that is too big)
     #[serde(default)]
     pub max_frame: (Option<u32>, Option<u32>),
+    /// (dialer is A, at ms): the same peer is dialed again while the traffic runs, so the connection
+    /// is replaced under in-flight RPCs (they may fail; none may be delivered twice)
+    #[serde(default)]
+    pub redials: Vec<(bool, u16)>,
 }
 
 pub fn size(max: u32) -> BoxedStrategy<u32> {
@@ -93,7 +97,7 @@ pub fn check(case: &Case, obs: &mut Obs) -> Result<(), Fail> {
         sa.config.max_frame_size = case.max_frame.0.map(|n| n as usize);
         let mut sb = NodeSpec::new(1);
         sb.config.max_frame_size = case.max_frame.1.map(|n| n as usize);
-        let limited = case.max_frame.0.is_some() || case.max_frame.1.is_some();
+        let limited = case.max_frame.0.is_some() || case.max_frame.1.is_some() || !case.redials.is_empty();
         let a = sim.node_with(sa)?;
         let b = sim.node_with(sb)?;
         let pb = match within(20_000, a.net.connect(b.addr())).await {
@@ -132,6 +136,15 @@ pub fn check(case: &Case, obs: &mut Obs) -> Result<(), Fail> {
                     Err(()) => Err("no result within 600 virtual seconds".into()),
                 };
                 Done { idx: i, t0, t1: fabric.now_ms(), result }
+            }));
+        }
+        let mut redial_tasks = Vec::new();
+        for (from_a, at) in &case.redials {
+            let (net, addr) = if *from_a { (a.net.clone(), b.addr()) } else { (b.net.clone(), a.addr()) };
+            let at = *at as u64;
+            redial_tasks.push(tokio::spawn(async move {
+                sleep_ms(at).await;
+                let _ = within(20_000, net.connect(addr)).await;
             }));
         }
         let mut done = Vec::new();
@@ -201,7 +214,9 @@ pub fn check(case: &Case, obs: &mut Obs) -> Result<(), Fail> {
         let big = case.rpcs.iter().any(|r| r.req_len > 1200 || r.resp_len > 1200);
         let st = sim.fabric.stats();
         let fault_hit = st.dropped_fault + st.duplicated + st.delayed > 0;
-        if limited { obs.label("frame-limit-configured"); }
+        for t in redial_tasks { let _ = t.await; }
+        if !case.redials.is_empty() { obs.label("connection-replaced-under-traffic"); }
+        if case.max_frame.0.is_some() || case.max_frame.1.is_some() { obs.label("frame-limit-configured"); }
         if limited && ok_count < done.len() { obs.label("rpc-failed-on-frame-limit"); }
         if overlap { obs.label("overlapping-rpcs"); }
         if big { obs.label("multi-datagram-body"); }
@@ -221,13 +236,14 @@ impl Part for Traffic {
     type Case = Case;
     fn name(&self) -> &'static str { "traffic" }
     fn rule(&self) -> &'static str {
-        "one connection A<->B on the virtual fabric, 1-40 RPCs in both directions with generated start offsets, routes (any string), 0-8 headers, request/response sizes 0..multi-MiB (incl. 1199-1201 = one datagram), handler delays (arbitrary completion order), all eight status codes, optional max_frame_size on either side (oversize frames fail single RPCs, possibly after the handler ran), and a fault script (loss <=25%, delay jitter <=50 ms => reordering, duplication <=10%); server behaviour is a pure function F of the request; oracle: Ok(resp) => resp == F(request sent) exactly and exactly one handler start with the sent route/headers/body; starts <= 1 for every id; nothing delivered that was not sent; non-trivial = >=2 RPCs overlapping in virtual time, or a body spanning >1 datagram, or a fault that hit a datagram; distinct by case"
+        "one connection A<->B on the virtual fabric, 1-40 RPCs in both directions with generated start offsets, routes (any string), 0-8 headers, request/response sizes 0..multi-MiB (incl. 1199-1201 = one datagram), handler delays (arbitrary completion order), all eight status codes, optional re-dials that replace the connection under the traffic, optional max_frame_size on either side (oversize frames fail single RPCs, possibly after the handler ran), and a fault script (loss <=25%, delay jitter <=50 ms => reordering, duplication <=10%); server behaviour is a pure function F of the request; oracle: Ok(resp) => resp == F(request sent) exactly and exactly one handler start with the sent route/headers/body; starts <= 1 for every id; nothing delivered that was not sent; non-trivial = >=2 RPCs overlapping in virtual time, or a body spanning >1 datagram, or a fault that hit a datagram; distinct by case"
     }
     fn strategy(&self, _t: Tier) -> BoxedStrategy<Case> {
         let max = self.0;
         let lim = || prop_oneof![6 => Just(None), 1 => (200u32..100_000).prop_map(Some), 1 => (200u32..3_000).prop_map(Some)];
-        (prop::collection::vec(rpc(max), 1..40), prop::collection::vec(fault_seg(2, 3000), 0..4), any::<u64>(), 1u8..30, (lim(), lim()))
-            .prop_map(|(rpcs, faults, fault_seed, link_delay_ms, max_frame)| Case { rpcs, faults, fault_seed, link_delay_ms, max_frame })
+        let redials = prop_oneof![3 => Just(vec![]), 1 => prop::collection::vec((any::<bool>(), 0u16..400), 1..3)];
+        (prop::collection::vec(rpc(max), 1..40), prop::collection::vec(fault_seg(2, 3000), 0..4), any::<u64>(), 1u8..30, (lim(), lim()), redials)
+            .prop_map(|(rpcs, faults, fault_seed, link_delay_ms, max_frame, redials)| Case { rpcs, faults, fault_seed, link_delay_ms, max_frame, redials })
             .boxed()
     }
     fn run(&self, c: &Case, obs: &mut Obs) -> Result<(), Fail> { check(c, obs) }
